@@ -379,6 +379,9 @@ pub(crate) struct ProtocolState {
     // rejoin sessions.
     pub(crate) has_connected_successfully: bool,
 
+    // whether the CONNECT of the current connection asked for a clean start / clean session
+    connect_clean_start: bool,
+
     // MQTT packet encode and decode
     pub(crate) encoder: Encoder,
     pub(crate) decoder: Decoder,
@@ -451,6 +454,7 @@ impl ProtocolState {
             next_operation_id : 1,
             next_packet_id : 1,
             has_connected_successfully: false,
+            connect_clean_start: false,
             encoder: Encoder::new(),
             decoder: Decoder::new(),
             next_ping_timepoint: None,
@@ -880,6 +884,9 @@ impl ProtocolState {
 
             // Queue up a Connect packet
             let connect = self.create_connect();
+            if let MqttPacket::Connect(connect_packet) = &*connect {
+                self.connect_clean_start = connect_packet.clean_start;
+            }
             let connect_op_id = self.create_operation(connect, None);
 
             self.enqueue_operation(connect_op_id, ProtocolQueueType::HighPriority, ProtocolEnqueuePosition::Front);
@@ -1794,6 +1801,12 @@ impl ProtocolState {
             }
 
             validate_connack_packet_inbound_internal(&connack)?;
+
+            // [MQTT-3.2.2-1], [MQTT-3.2.2-2], [MQTT-3.2.2-4]: a server that accepts a clean start has no session to report
+            if connack.session_present && self.connect_clean_start {
+                error!("[{} ms] handle_connack - session present in answer to a clean start", self.elapsed_time_ms);
+                return Err(GneissError::new_protocol_error("connack reports a session in answer to a clean start"));
+            }
 
             self.change_state(ProtocolStateType::Connected);
             self.has_connected_successfully = true;
